@@ -379,6 +379,12 @@ func (vs *ValueSet) SignatureValues() []reflect.Value {
 // The values list must match the type signature returned from vs.Signature.
 // This usually comes from calling a function directly.
 func (vs *ValueSet) FromSignature(values []reflect.Value) error {
+	// If we have no values at all then our signature is empty and there
+	// is nothing to set.
+	if vs == nil || vs.structType == nil {
+		return nil
+	}
+
 	// If we're lifted, then first set the values onto the struct.
 	if vs.lifted() {
 		// If we are lifted, then we need to translate the output arguments
